@@ -225,8 +225,56 @@ func checkC17(rep *core.Report) {
 		if w := writes(F); w != "" {
 			other = w
 		}
+		// inside the two loaders themselves: the options object is never replaced as a whole (that would also discard
+		// what an earlier source set), a field is stored directly only from the command line (the -config scan), and
+		// only the environment loader sets fields through reflection
+		isEnvEv := map[ssa.Instruction]bool{}
+		for _, e := range envEv {
+			isEnvEv[e] = true
+		}
+		fromArgs := func(v ssa.Value) bool {
+			for x := range core.BackwardSlice(v, core.SliceOpts{}) {
+				if g, ok := x.(*ssa.Global); ok && g.Pkg != nil && g.Pkg.Pkg.Path() == "os" && g.Name() == "Args" {
+					return true
+				}
+			}
+			return false
+		}
+		loaderWrites := func(fn *ssa.Function, env bool) string {
+			w := ""
+			allInstrs(fn, func(ins ssa.Instruction) {
+				switch x := ins.(type) {
+				case *ssa.Store:
+					if _, fresh := core.AddrRoot(x.Addr).(*ssa.Alloc); fresh {
+						return
+					}
+					if typeIs(core.Deref(x.Addr.Type()), core.ModPath+"/vflow", "Options") {
+						w = "the whole options object is overwritten at " + prog.Pos(x.Pos())
+						return
+					}
+					if o, f, ok := core.FieldOf(x.Addr); ok && typeIs(o, core.ModPath+"/vflow", "Options") && !fromArgs(x.Val) {
+						w = "store to Options." + f.Name() + " at " + prog.Pos(x.Pos())
+					}
+				case ssa.CallInstruction:
+					if n := calleeName(x); strings.HasPrefix(n, "(reflect.Value).Set") && !env {
+						w = n + " at " + prog.Pos(x.Pos())
+					}
+				}
+			})
+			return w
+		}
 		for _, cs := range cg.Sites[F] {
 			if isEv[cs.Instr] {
+				for _, t := range cs.Targets {
+					if !prog.IsRepoFunc(t) {
+						continue
+					}
+					for _, r := range cg.ReachableRepo(t) {
+						if w := loaderWrites(r, isEnvEv[cs.Instr]); w != "" {
+							other = core.FuncName(r) + ": " + w
+						}
+					}
+				}
 				continue
 			}
 			for _, t := range cs.Targets {
